@@ -1131,6 +1131,27 @@ impl<S: PtpInstanceStateMutex + 'static> World<S> {
         }
     }
 
+    /// `handle_send_timestamp` with an explicit time (bits) for context `c` (1-based) of port `p` (1-based)
+    pub fn step_ts_bits(&mut self, p: usize, c: usize, bits: u128) -> Value {
+        self.clear_logs();
+        let ctx = match self.ctxs[p - 1].get_mut(c - 1).and_then(|s| s.take()) {
+            Some(c) => c,
+            None => return json!({"out": [], "skipped": "no such context"}),
+        };
+        let port = match &mut self.ports[p - 1] {
+            Slot::Run(r) => r,
+            _ => panic!("port not running"),
+        };
+        let r = catch_unwind(AssertUnwindSafe(|| collect(port.handle_send_timestamp(ctx, time_from_bits(bits)))));
+        match r {
+            Ok(raw) => {
+                let out = self.absorb(p - 1, raw);
+                json!({ "out": out })
+            }
+            Err(e) => self.panicked(e),
+        }
+    }
+
     fn panicked(&mut self, e: Box<dyn std::any::Any + Send>) -> Value {
         self.panics += 1;
         let msg = if let Some(s) = e.downcast_ref::<&str>() {
@@ -1380,6 +1401,25 @@ impl<S: PtpInstanceStateMutex + 'static> World<S> {
         }
         s
     }
+}
+
+
+/// Duration (bits, 2^-32 ns) -> wire TimeInterval bits (2^-16 ns) as exported by a real port's data set
+/// (`PortDS.delay_asymmetry` is `TimeInterval::from(Duration)`)
+pub fn asymmetry_interval_bits(d: i128) -> i64 {
+    let icfg = InstanceConfig {
+        clock_identity: ClockIdentity([1; 8]), priority_1: 128, priority_2: 128, domain_number: 0, sdo_id: SdoId::try_from(0).unwrap(),
+        slave_only: false, path_trace: false, clock_quality: ClockQuality::default(),
+    };
+    let inst = PtpInstance::<RecFilter, RecMutex>::new(icfg, TimePropertiesDS::default());
+    let sh = Rc::new(Shared::default());
+    let pcfg = PortConfig {
+        acceptable_master_list: None::<Vec<ClockIdentity>>, delay_mechanism: DelayMechanism::E2E { interval: Interval::from_log_2(0) },
+        announce_interval: Interval::from_log_2(0), announce_receipt_timeout: 3, sync_interval: Interval::from_log_2(0), master_only: false,
+        delay_asymmetry: dur_from_bits(d), minor_ptp_version: PtpMinorVersion::One,
+    };
+    let p = inst.add_port(pcfg, RecFilterCfg { port: 0, sh: sh.clone() }, RecClock { port: 0, sh }, ScriptRng::new(1));
+    p.port_ds().delay_asymmetry.0.to_bits()
 }
 
 // ------------------------------------------------------------------ comparison
